@@ -5,7 +5,7 @@ from .. import ldmsim
 
 ID = "C14"
 ENGINE = "ldm"
-RUNS = {"quick": 6000, "thorough": 90000}
+RUNS = {"quick": 6000, "thorough": 120000}
 RULE_TEXT = ("one run = one seeded history (8-100 ops) over a real LDM (Dictionary or TinyDB; maintenance Reactive|Thread; service "
              "Reactive = attendance piggybacked on add, Thread = parked SimThread every 0.5 virtual s): subscribe (types, filter, "
              "order, notification interval None..5 s, multiplicity None..5, also invalid and duplicate requests), unsubscribe, "
